@@ -9,7 +9,7 @@ LEAN_TARGETS = ['Props.C13']
 REQUIRED_THEOREMS = ['Props.C13.eval_keeps_state', 'Props.C13.train_updates_once', 'Props.C13.running_mean_exponential',
                      'Props.C13.running_mean_cumulative', 'Props.C13.no_track_uses_batch_stats', 'Props.C13.dropout_eval_identity',
                      'Props.C13.dropout_train_spec', 'Props.C13.dropout_backward_same_mask']
-RULE = ('BatchNorm: option grid momentum in {None, .1, .5, 1} x affine x track_running_stats x input rank 2/3/4, random running '
+RULE = ('BatchNorm: option grid momentum in {None, 0, .1, .5, 1} x affine x track_running_stats x input rank 2/3/4, random running '
         'statistics and affine parameters, histories of train/eval switches and forward calls on batches of varying size '
         '(incl. one value per channel); output values and (running_mean, running_var, num_batches_tracked) compared after every '
         'forward. Dropout: p over [0,1] incl. 0 and 1, train/eval, the uniform draws captured by wrapping np.random.rand so the '
@@ -18,7 +18,7 @@ EXHAUSTIVE = {'quick': False, 'thorough': False}
 ASSUMPTIONS = ['float64 layers; np.mean/np.var pairwise summation differs from the model fold by rounding only (rel 1e-9 accepted)',
                'np.random.rand draws are captured, their distribution is trusted']
 TRUSTED_BASE = ['harness/props/c13.py (generator, canonicalisation)']
-MOMENTA = [None, 0.1, 0.5, 1.0]
+MOMENTA = [None, 0.1, 0.5, 1.0, 0.0, 0.0]      # 0.0: the running statistics never move (a falsy value that is not None)
 VIA = ['self', 'self', 'parent', 'root']
 
 
